@@ -105,6 +105,53 @@ where
 	});
 }
 
+/// The same for types that borrow (lifetime parameters): schema building, JSON and serialization
+/// only; the bytes are read back with the dynamically typed target and must decode in full.
+pub fn run_family_opaque_borrowed<T>(name: &str, values: &[T], out: &mut Vec<String>)
+where
+	T: BuildSchema + Serialize,
+{
+	let res = std::panic::catch_unwind(std::panic::AssertUnwindSafe(|| {
+		let mut bad: Vec<String> = vec![];
+		let g1 = T::schema_mut();
+		let g2 = T::schema_mut();
+		if dump_nodes(&g1) != dump_nodes(&g2) {
+			bad.push("NONDET".into());
+		}
+		match serde_json_like(&g1) {
+			Some(text) => {
+				if text.parse::<serde_avro_fast::schema::SchemaMut>().is_err() {
+					bad.push("json-REJECTED".into());
+				}
+			}
+			None => bad.push("json-err".into()),
+		}
+		match T::schema() {
+			Err(_) => bad.push("schema-err".into()),
+			Ok(schema) => {
+				let mut config = serde_avro_fast::ser::SerializerConfig::new(&schema);
+				for v in values {
+					match serde_avro_fast::to_datum_vec(v, &mut config) {
+						Err(_) => bad.push("err".into()),
+						Ok(bytes) => {
+							if serde_avro_fast::from_datum_slice::<serde::de::IgnoredAny>(&bytes, &schema).is_err() {
+								bad.push("rt-err".into());
+							}
+						}
+					}
+				}
+			}
+		}
+		bad
+	}));
+	out.push(format!("derive-opaque {name}"));
+	out.push(match res {
+		Ok(bad) if bad.is_empty() => "ok # ok".into(),
+		Ok(bad) => format!("bad # VIOLATION derived schema / serialization of hand-written family {name}: {}", bad.join(" ")),
+		Err(_) => format!("panic # VIOLATION derived schema / serialization of hand-written family {name}: panic"),
+	});
+}
+
 pub fn run_family<T>(prog: &str, values: &[T], out: &mut Vec<String>)
 where
 	T: BuildSchema + Serialize + DeserializeOwned + PartialEq + std::fmt::Debug,
